@@ -134,9 +134,18 @@ def recs_tok(recs):
     return ",".join(hx(n) + ":" + hx(s) for n, s in recs) if recs else "-"
 
 
+SAMPLE_NAMES = [b"HG002", b"HG010", b"CHM13", b"S9", b"S10", b"mPanTro3", b"a", b"Z", b"b1", b"AAA"]
+
+
 def sample_set(rng, small=True):
     ss = GS.gen_set(rng, nsamples=rng.choice([2, 3, 4]), ncontigs=rng.choice([1, 2, 3]), clen=rng.choice([300, 800, 1500] if small else [800, 3000]))
-    return [(s.encode(), [(n.encode(), q.encode()) for n, q in cs]) for s, cs in ss]
+    out = [(s.encode(), [(n.encode(), q.encode()) for n, q in cs]) for s, cs in ss]
+    if rng.random() < 0.5:
+        # sample names that are NOT in ascending byte order in the file (contiguous per sample, any order is legal: a
+        # seeded change that made single-file mode demand ascending names went unnoticed while every set was S000, S001, ...)
+        names = rng.sample(SAMPLE_NAMES, len(out))
+        out = [(nm, cs) for nm, (_, cs) in zip(names, out)]
+    return out
 
 
 def present(rng, recs, name, gzkind, w, eol, m):
